@@ -25,7 +25,7 @@ PROPERTY = "C06"
 LEVEL = "exploration"
 RULE = (
     "per system (md-grid, variable history, equation program): row requests = None, equation lists "
-    "(all permutations of <= 3 [quick: <= 2] names, larger subsets in reversed set order; by name and "
+    "(all permutations of <= 3 names, larger subsets in reversed set order [thorough only]; by name and "
     "by Operator) and restriction dicts (every combination of 'absent or any subset of its grids, "
     "including the empty one' over the equations [quick and grid G2: at most 2 equations present]; "
     "keys by name and by Operator; keys inserted in reversed set order; grids passed in reversed "
@@ -43,7 +43,7 @@ ASSUMPTIONS = [
     "the Jacobian/residual reference is the object's own unrestricted assemble() at the same state",
 ]
 BOUNDS = {
-    "quick": "3 systems on G1 (V1/O1, V2/O2, V3/O3); lists of <= 2 names permuted + 3-subsets; dicts with <= 2 equations present",
+    "quick": "3 systems on G1 (V1/O1, V2/O2, V3/O3); lists: all permutations of <= 3 of the 5 names; dicts with <= 2 equations present",
     "thorough": "9 systems on G1 (V1..V3 x O1..O3, full dict product 1125 x 2 key forms) + 3 systems on G2 (dicts with <= 2 equations present)",
 }
 MIN_CLASSES = 6
@@ -73,12 +73,12 @@ def row_requests(grid, okey, rich):
     order = qs.eq_order(qs.ORDERS[okey])
     spec = qs.EQS[grid]
     out = [{"t": "none"}]
-    maxperm = 3 if rich else 2
+    maxperm = 3
     for r in range(0, len(order) + 1):
         for sub in itertools.combinations(order, r):
             if r <= maxperm:
                 perms = list(itertools.permutations(sub))
-            elif r == 3 or rich:
+            elif rich:
                 perms = [tuple(reversed(sub))]
             else:
                 perms = []
